@@ -167,7 +167,7 @@ PROPERTIES = {
     },
     "C08": {
         "rule": "rapidcheck stateful histories on a real solver: tissues of 2-7 level-1 cells in contact (3/4 all-epithelial, 1/4 mixed classes), "
-                "1-4 face types per cell type, 1-4 threads; the generated cell types and the tissue (as an input mesh) first go through the real simulation_initializer, which must accept 3+ face types and may refuse fewer; commands Step(1|2|5 iterations), Shrink(k) (cell k scaled to 0.37 of its volume -> removed at the end "
+                "1-4 face types per cell type and, in 2/3 of the cases, a second epithelial cell type (same global id, listed after the first, 1-4 face types, used by every other epithelial cell), 1-4 threads; the generated cell types and the tissue (as an input mesh) first go through the real simulation_initializer, which must accept 3+ face types and may refuse fewer; commands Step(1|2|5 iterations), Shrink(k) (cell k scaled to 0.37 of its volume -> removed at the end "
                 "of the next iteration), Inflate(k) (scaled above its division volume -> divided at the next multiple-of-5 iteration); invariants "
                 "after every iteration. Non-trivial = history containing a removal from the middle of the list followed by further iterations "
                 "AND at least one division; distinct = hash of the case.",
